@@ -14,7 +14,7 @@ HERE = os.path.dirname(os.path.dirname(os.path.abspath(__file__)))
 BASE = "/var/tmp/verif-mut"
 KIND = "x"
 QUIET = False
-ALL = ["C%02d" % i for i in range(1, 29) if i != 4]
+ALL = ["C%02d" % i for i in range(1, 29)]
 
 
 def sh(cmd, **kw):
@@ -159,7 +159,7 @@ def main():
     for r in results:
         ran = sorted(r.get("checks", {}))
         summ[r["name"]] = {"kind": r["kind"], "expected": r.get("expected"), "ok": bool(r.get("ok")), "repo_head": head,
-                           "checks_run": "all 27" if len(ran) == len(ALL) else ran,
+                           "checks_run": "all 28" if len(ran) == len(ALL) else ran,
                            "fired": sorted(c for c, v in r.get("checks", {}).items() if v["fired"]),
                            "first_report": {c: v["first"][:220] for c, v in r.get("checks", {}).items() if v["fired"]}}
     json.dump(summ, open(summ_path, "w"), indent=1, sort_keys=True)
